@@ -9,4 +9,7 @@ EXTRA = {
     # Props/C02Float.v, Props/C05Float.v: the note-off and action due tests generated from the source
     "C02": (("gen_tables_time.py",), ()),
     "C05": (("gen_tables_time.py",), ()),
+    # the source translators of docs/TRANSLATOR2.md (harness/src2coq.py): function bodies -> Generated/Tables<X>.v, tied to the
+    # models by <Dir>/<Model>Src.v, property theorems restated in Props/<ID>Src.v
+    "C14": (("gen_tables_mult.py",), ()),      # isobar/util.py make_clock_multiplier -> Clock/MultiplierSrc.v, Props/C14Src.v
 }
